@@ -70,7 +70,7 @@ class C16(Check):
     ASSUMPTIONS = ['zlib / zstandard C libraries are trusted as codecs; the property is about rxsci\'s streaming wrappers',
                    'reference decoders: gzip.decompress and zstandard.ZstdDecompressor.stream_reader']
     ANCHORS = ['rxsci/compression/z.py', 'rxsci/compression/zstd.py']
-    REQUIRED_TAGS = ['gzip', 'zstd', 'empty-list', 'empty-chunk-in-input', 'over-one-buffer', 'rand', 'zeros', 'multi-MiB-compressible', 'over-4MiB', 'compressed-size-is-a-block-size', 'mixed-compressibility', 'thousands-of-small-chunks', 'chunks-as-bytearray', 'chunks-as-memoryview', 'chunks-that-are-buffers-of-wider-items', 'wide-buffer-of-over-2**20-items']
+    REQUIRED_TAGS = ['gzip', 'zstd', 'empty-list', 'empty-chunk-in-input', 'over-one-buffer', 'rand', 'zeros', 'multi-MiB-compressible', 'over-4MiB', 'compressed-size-is-a-block-size', 'mixed-compressibility', 'thousands-of-small-chunks', 'chunks-as-bytearray', 'chunks-as-memoryview', 'chunks-as-numpy-uint8', 'chunks-that-are-buffers-of-wider-items', 'wide-buffer-of-over-2**20-items']
     REQUIRED_OBSERVED = ['triples_of_staggered_subscriptions', 'truncations_checked', 'rechunkings_checked', 'reference_decodes', 'compressed_streams_of_exactly_a_block_size']
 
     _ops = {}
@@ -333,7 +333,7 @@ class C16(Check):
                          first_diff=next((i for i, (a, b) in enumerate(zip(got, data)) if a != b), min(len(got), len(data))))
         # the same chunks as bytearray objects / as memoryview slices of one buffer, each consumed twice as the same objects: same
         # content in both directions, and the chunks are left as they were handed over
-        ct = chunking.BYTES_LIKE[(len(chunks) + len(data) + len(comp)) % 3]
+        ct = (chunking.BYTES_LIKE + ('numpy-uint8',))[(len(chunks) + len(data) + len(comp)) % 4]
         if ct != 'bytes' and len(data) <= (1 << 20) and not out.failures:
             out.tags.append('chunks-as-' + ct)
             alt = chunking.bytes_like(chunks, ct)
